@@ -18,6 +18,13 @@ BaseUnits / exponent-dict / array objects inside the pool.  A history that viola
 extended (so reported histories are minimal); a history whose last step leads to an already known state of the same
 shard is not extended either.
 
+Augmented assignments (x = a; x op= b with +=, *= on quantities and +=, -=, *=, /=, **= with a plain number) are pure
+operations of the alphabet: the name x is rebound to the result while the pool keeps the old object as an alias, which
+must be unchanged.  In addition every run executes, per pool, the differential histories P, S, P (P a value query or
++, -, *, /, == on the initial operands, S an in-place method on one of them): the second P must give exactly what P
+gives on fresh operands after S alone, so a result remembered from the first P (a conversion cache keyed on object
+identity) cannot survive an in-place change of the operand.
+
 Not demanded (left out on purpose)
   * *structural* sharing that no in-place method of the statement can make visible (a result holding the same
     BaseUnits object as its operand while nothing mutates it; NumPy buffers): the statement defines sharing by its
@@ -643,7 +650,9 @@ MANIFEST = dict(
          "(in-place methods and value queries on every object, == and + on all ordered pairs; about 8e6 more histories). "
          "After every step all objects that are not the target of an in-place method must report bit-identical value, "
          "units and uncertainty, and - whenever any attribute of its Magnitude/BaseUnits changed - the same recomputed "
-         "reports (value(unit), q*1, q*q, sqrt(q), rebase() on deep copies) as before the step.",
+         "reports (value(unit), q*1, q*q, sqrt(q), rebase() on deep copies) as before the step.  Augmented assignments "
+         "are part of the alphabet (the old object must stay unchanged), and per pool the differential histories "
+         "P,S,P vs S,P (P pure, S in-place) must give identical results.",
     note="Sharing between result and operand is judged by its effect through the in-place methods (as the statement "
          "defines it), not structurally; operand magnitudes are one representative per pool; histories longer than the "
          "bound rely on the small-scope hypothesis; trusted: value()/units()/abse() are read-only accessors; the "
